@@ -341,7 +341,7 @@ class History:
             return "its command never ran"
         t = self.last_ok[st.name]
         cls, soft = set(), set()
-        if self.ok_cmdline.get(st.name) != self.cmdline(st):
+        if self.ok_cmdline.get(st.name) != self.cmdline(st) and not st.generator:   # a generator statement is documented not to re-run for a changed command line
             cls.add("command line")
         old = self.ok_deps.get(st.name)
         deps_changed = old != self.deps_of(st)
